@@ -165,6 +165,7 @@ DEFAULT_PROFILE = {
     "p_early_finish_pbt": 0.0,
     "p_sparse_moasha": 0.0,
     "p_late_key": 0.0,
+    "p_tiny_values": 0.03,
     "p_io_latency": 0.5,
     "p_async_stop": 0.15,
     "p_nodelay_false": 0.12,
@@ -209,6 +210,15 @@ def gen_scenario(root, profile=None):
     numeric = kind == "pbt" and r.chance(0.7)
     space = gen_space(r, finite=(kind == "fifo_grid"), numeric=numeric, tiny=tiny,
                       max_dims=2 if tiny else 4, simple=bool(p.get("simple_finite")))
+    r0 = HRng(root, "scenario-ext0")
+    if r0.chance(p["p_tiny_values"]) and kind != "fifo_grid":
+        # a continuous hyperparameter whose values are tiny (Adam epsilon, weight decay): equality of configurations
+        # must still be judged on significant digits
+        cont = [i for i, (_, d) in enumerate(space) if d[0] in ("uniform", "loguniform")]
+        if cont:
+            i = cont[r0.randint(0, len(cont) - 1)]
+            lo = 10.0 ** (-r0.randint(8, 11))
+            space[i][1] = ["loguniform", lo, lo * 1000.0] if r0.chance(0.6) else ["uniform", 0.0, 4.0 * lo * 100.0]
     if p["world"] == "sim":
         # finite, fully tabulated space (<= 40 rows) of exactly matchable values
         space = []
